@@ -264,6 +264,32 @@ def run(check):
     else:
       r_b.violate('replica loop', add, loop[0] if loop else None, 'add_node does not create one entry for each replica index in '
                   'range(self.replica_count)', construct='for i in range(self.replica_count)')
+  if add is not None:
+    whiles = [n for n in walk_no_nested(add.node, include_self=False) if isinstance(n, ast.While)]
+    okb = False
+    for w in whiles:
+      t = w.test
+      if isinstance(t, ast.Compare) and len(t.ops) == 1 and isinstance(t.ops[0], ast.In) and isinstance(t.left, ast.Name):
+        pos = t.left.id
+        c = t.comparators[0]
+        all_positions = False
+        if isinstance(c, (ast.ListComp, ast.SetComp, ast.GeneratorExp)) and len(c.generators) == 1 and \
+           dotted(c.generators[0].iter) == 'self.ring' and not c.generators[0].ifs and isinstance(c.elt, ast.Subscript) and \
+           isinstance(c.elt.slice, ast.Constant) and c.elt.slice.value == 0:
+          all_positions = True
+        body_ok = len(w.body) == 1 and (
+          (isinstance(w.body[0], ast.AugAssign) and isinstance(w.body[0].op, ast.Add) and dotted(w.body[0].target) == pos and
+           isinstance(w.body[0].value, ast.Constant) and w.body[0].value.value == 1) or
+          (isinstance(w.body[0], ast.Assign) and unparse(w.body[0].value).replace(' ', '') in ('%s+1' % pos, '1+%s' % pos) and
+           dotted(w.body[0].targets[0]) == pos))
+        if all_positions and body_ok:
+          okb = True
+          r_b.ok('collision handling: while the position is taken by any ring entry, position += 1 (published behaviour)', add.loc(w))
+    if not okb:
+      r_b.violate('collision handling differs from the published ring', add, whiles[0] if whiles else None, 'add_node does not resolve a '
+                  'position collision the published way (`while position in [r[0] for r in self.ring]: position += 1`): rings with '
+                  'double collisions (e.g. fnv1a_ch with hosts sharing instance names) then differ from graphite-web and other relays',
+                  construct='collision bump loop')
   ch = cx.fn('carbon.hashing', 'carbonHash')
   rec = []
   se.run(ch.body, {}, ch, lambda c: None, rec)
